@@ -78,7 +78,12 @@ def _shard(shard) -> Dict[str, Any]:
         pairs = list(itertools.product(CLOCK, CLOCK))
         schedules = [(f"s{i}", a, b) for i, (a, b) in enumerate(pairs)]
         vehicles = [{"id": f"h{i:02d}", "cell": S["A"], "mech": "leaf_50", "soc": 0.9, "schedule_id": f"s{i}", "home_base_id": "hb"} for i in range(len(pairs))]
+        # a second driver per schedule whose vehicle starts with an empty battery: it is out of service from the first step on, and its
+        # driver comes on and goes off shift all the same
+        vehicles += [{"id": f"e{i:02d}", "cell": S["N2"], "mech": "leaf_50", "soc": 0.0, "schedule_id": f"s{i}", "home_base_id": "hb"} for i in range(len(pairs))]
+        # autonomous vehicles whose ids sort before AND after the human drivers' ids (drivers are updated in id order)
         vehicles.append({"id": "av", "cell": S["N1"], "mech": "leaf_50", "soc": 0.9})
+        vehicles.append({"id": "zv", "cell": S["N1"], "mech": "leaf_50", "soc": 0.9})
         nsteps = (2 * 86400) // step + 2
         end = start + nsteps * step
         # one request per step next to the human drivers
@@ -108,12 +113,14 @@ def _shard(shard) -> Dict[str, Any]:
             tod = t % 86400
             disp = [x for x in dlog if x[0] == t]
             dispatched = {vid for _, instrs in disp for vid, _ in instrs}
-            for i, (a, b) in enumerate(pairs):
-                vid = f"h{i:02d}"
+            for prefix, (i, (a, b)) in itertools.product(("h", "e"), enumerate(pairs)):
+                vid = f"{prefix}{i:02d}"
+                if prefix == "e" and rp.s.vehicles[vid].vehicle_state.__class__.__name__ == "OutOfService":
+                    out["stranded_steps"] = out.get("stranded_steps", 0) + 1
                 want = in_shift(secs(a), secs(b), tod)
                 out["schedule_steps"] += 1
                 kind = "wrapping" if secs(a) > secs(b) else ("empty" if a == b else "normal")
-                rpdata = {"step": step, "start": start_name, "schedule": [a, b], "at": t}
+                rpdata = {"step": step, "start": start_name, "schedule": [a, b], "at": t, "vehicle": vid}
                 if avail[vid] != want:
                     out["findings"].setdefault(("availability", kind, "available_off_shift" if avail[vid] else "unavailable_on_shift"), (f"step {step}, start {start_name}: driver with shift [{a}, {b}) is {'available' if avail[vid] else 'unavailable'} in the step beginning {t} (time of day {tod})", rpdata))
                 mine = [e for e in evs if e[0] == vid]
@@ -196,7 +203,8 @@ def c20() -> int:
             "traces_validated_against_impl": sum(r["runs"] for r in res),
             "evaluations": sched_steps,
             "distinct_nontrivial": flips,
-            "rule": f"36 shift tables (all (start, end) over {CLOCK}: normal, wrapping, empty, touching midnight) x step lengths {steps} x start times {list(STARTS)}; two days + 2 steps each; non-trivial = (schedule, step) instances in which availability flips",
+            "rule": f"36 shift tables (all (start, end) over {CLOCK}: normal, wrapping, empty, touching midnight) x step lengths {steps} x start times {list(STARTS)}, each driven twice: a vehicle at 90 % and one that starts empty (out of service throughout), beside autonomous vehicles whose ids sort before and after the drivers'; two days + 2 steps each; non-trivial = (schedule, step) instances in which availability flips",
+            "stranded_driver_steps": sum(r.get("stranded_steps", 0) for r in res),
             "dispatcher_calls": sum(r.get("dispatch_calls", 0) for r in res),
             "dispatcher_pairs": sum(r.get("dispatch_pairs", 0) for r in res),
             "samples": [s for r in res for s in r["samples"]][:3],
@@ -206,6 +214,8 @@ def c20() -> int:
     c.assumptions += ["availability is read after the step; the reference uses the time at which the step began"]
     log(f"  C20: {len(shards)} runs, {sched_steps} (schedule, step) instances, {flips} flips, {c.coverage['dispatcher_pairs']} dispatcher pairs")
     dispatcher_probe(c)
+    if c.coverage["stranded_driver_steps"] == 0:
+        c.vacuous.append("no human-driven vehicle was ever out of service while its shift table was being checked")
     if c.coverage["dispatcher_pairs"] == 0:
         c.vacuous.append("dispatcher never assigned anything")
     return c.finish()
